@@ -89,8 +89,10 @@ RotClauses(e) ==
       \cup Chk(Close(Mul(Mul(I(8), Mul(PI, PI)), Mul(KB, r.TI)), Mul(H, H), 6), "RotConstant")
       \cup (CASE i.geom = "nonlinear" ->
                   IF Len(used) # 3 THEN {"MomentsOfInertia"}
-                  ELSE Chk(Close(Mul(Mul(qs, qs), ti3), Mul(Mul(PI, t3), Mul(used[1], Mul(used[2], used[3]))), 6),
-                           "QRotNonlinear")
+                  ELSE IF Close(Mul(Mul(qs, qs), ti3), Mul(Mul(PI, t3), Mul(used[1], Mul(used[2], used[3]))), 6) THEN {}
+                  \* known finding X08-F2: exactly sqrt(pi max(I))/sigma (T0/T_I)^1.5
+                  ELSE IF Close(Mul(Mul(qs, qs), ti3), Mul(Mul(PI, t3), MaxSeq(used)), 6)
+                       THEN {"QRotNonlinear_KnownMaxMoment"} ELSE {"QRotNonlinear"}
               [] i.geom = "linear" -> Chk(Close(Mul(qs, r.TI), Mul(T0, MaxSeq(used)), 6), "QRotLinear")
               [] OTHER -> Chk(IsZero(r.qrot), "QRotMonatomic"))
 
@@ -109,7 +111,10 @@ StoredClauses(e) ==
        /\ e.st.name = e.in2.name /\ e.st.els = e.in2.els /\ e.st.nones = e.in2.nones, "StoredInputs")
 
 ConstructClauses(e) ==
-   IF e.raised THEN {"Raises"}
+   \* known finding X08-F1: numpy.product does not exist (NumPy >= 2); only a species with a real vibration reaches
+   \* that call, and only without the driver's shim (e.shim: numpy.product provided for the continuation)
+   IF e.raised THEN (IF e.errkind = "np.product" /\ ~e.shim /\ \E i \in Idx(e.in.wn) : ~IsZero(e.in.wn[i])
+                     THEN {"Raises_KnownNumpyProduct"} ELSE {"Raises"})
    ELSE IF ~e.finite THEN {"Finite"}
    ELSE VibClauses(e) \cup RotClauses(e) \cup TransClauses(e) \cup StoredClauses(e)
 
@@ -134,8 +139,15 @@ SameDerived(a, b) ==
    /\ a.hasI3 = b.hasI3 /\ Same2(a.I3, b.I3) /\ Equal2(a.qrot, b.qrot)
    /\ a.hasMW = b.hasMW /\ Equal2(a.MW, b.MW) /\ Equal2(a.qtrans, b.qtrans)
 RoundTripClauses(e) ==
-   IF e.dictRaised THEN {"ToDictRaises"}
-   ELSE IF ~e.isdict THEN {"ToDictReturnsDict"}
+   \* known finding X08-F3: to_dict reads attributes that exist only for some species (inertia, q_vib, I3, MW) and
+   \* has no return statement
+   IF e.dictRaised
+   THEN (IF \/ e.errkind = "TypeError:NoneIterable" /\ e.before.inertiaNone
+            \/ e.errkind = "AttributeError:q_vib" /\ ~e.before.hasq
+            \/ e.errkind = "AttributeError:I3" /\ ~e.before.hasI3
+            \/ e.errkind = "AttributeError:MW" /\ ~e.before.hasMW
+         THEN {"ToDict_KnownMissingAttribute"} ELSE {"ToDictRaises"})
+   ELSE IF ~e.isdict THEN (IF e.retnone THEN {"ToDict_KnownNoReturn"} ELSE {"ToDictReturnsDict"})
    ELSE Chk(e.jsonable, "DictJsonTypes")
         \cup Chk(e.cls = "<class 'pmutt.empirical.zacros.Zacros'>", "DictClass")
         \cup Chk(RequiredKeys \subseteq SetOf(e.keys), "DictKeys")
@@ -147,6 +159,7 @@ RoundTripClauses(e) ==
 
 \* ---------------------------------------------------------------- compare
 \* e.given (T passed) e.Targ[] e.Tret[] e.model[] e.emp[] e.dmodel[] e.demp[] e.Tlow e.Thigh (all Dec2)
+CurveScale(v) == MaxSeq(<<One>> \o [k \in Idx(v) |-> DAbs(ToDec(v[k]))])
 Dle2(a, b) == Le(ToDec(a), ToDec(b)) \/ Equal2(a, b)
 CompareClauses(e) ==
    IF e.raised THEN {"Raises"}
@@ -157,9 +170,15 @@ CompareClauses(e) ==
                   /\ \A k \in 1..n : Dle2(e.Tlow, e.Tret[k]) /\ Dle2(e.Tret[k], e.Thigh)
                   /\ \A k \in 1..(n - 1) : Lt(ToDec(e.Tret[k]), ToDec(e.Tret[k + 1])), "CompareDefaultRange"))
         \cup (IF Len(e.model) # n \/ Len(e.emp) # n \/ Len(e.dmodel) # n \/ Len(e.demp) # n
-              THEN {"CompareLengths"}
-              ELSE Chk(\A k \in 1..n : Close2(e.model[k], e.dmodel[k], 12), "CompareModel")
-                   \cup Chk(\A k \in 1..n : Close2(e.emp[k], e.demp[k], 12), "CompareEmpirical"))
+              \* known finding X08-F4: compare_CpoR hands the array to the StatMech model; with one mode or as many
+              \* temperatures as modes it broadcasts and ONE number comes back
+              THEN (IF e.which = "CpoR" /\ n > 1 /\ Len(e.model) = 1 /\ Len(e.emp) = n /\ Len(e.dmodel) = n
+                       /\ Len(e.demp) = n /\ (e.nmodes = 1 \/ e.nmodes = n)
+                    THEN {"CompareLengths_KnownBroadcast"} ELSE {"CompareLengths"})
+              \* array vs scalar evaluation: 1e-12 of the largest value of the curve (a polynomial may cross zero
+              \* by cancellation of terms of that size), never less than 1e-12 absolute
+              ELSE Chk(\A k \in 1..n : Close2At(e.model[k], e.dmodel[k], CurveScale(e.dmodel), 12), "CompareModel")
+                   \cup Chk(\A k \in 1..n : Close2At(e.emp[k], e.demp[k], CurveScale(e.demp), 12), "CompareEmpirical"))
 
 Clauses(e) ==
    CASE e.ev = "construct" -> ConstructClauses(e)
